@@ -74,6 +74,8 @@ def profile_crash(rng: random.Random, modes: list[str] = LB, requeue: bool = Fal
     if rng.random() < 0.6 and left > 0:
         cfg.p_crash = rng.choice([0.002, 0.005, 0.01, 0.03])
         cfg.max_crashes = rng.randrange(1, min(left, 3) + 1)
+    # a write into the pipe of a dead, not yet noticed worker may raise OSError (execnet does either)
+    cfg.oserror_window = rng.random() < 0.35
     return cfg
 
 
